@@ -108,11 +108,11 @@ Proof. exact scan_step_progress. Qed.
 Print Assumptions C18_scan_step_progress.
 
 (* ---- non-vacuity: a scan that hands over in the middle, with a writer in between ---- *)
-Definition C18_tbl : bytes := [112; 47; 116; 97; 98; 108; 101; 115; 47; 116]%N.   (* "p/tables/t" *)
+Definition C18_tbl : bytes := [112; 114; 111; 106; 101; 99; 116; 115; 47; 112; 47; 105; 110; 115; 116; 97; 110; 99; 101; 115; 47; 105; 47; 116; 97; 98; 108; 101; 115; 47; 116]%N.   (* "projects/p/instances/i/tables/t" *)
 Definition C18_w (k v : N) : call := mkCall (BMutateRow C18_tbl [k] [SetCell [102%N] [113%N] 1000 [v]]) 0 [].
 (* row a: 11 x 100 = 1100 cells (> btFlushChunks = 1024); rows b, c: one cell *)
 Definition C18_s0 : server :=
-  fst (run [] [mkCall (BCreateTable [112%N] [116%N] [([102%N], None)]) 0 [];
+  fst (run [] [mkCall (BCreateTable [112; 114; 111; 106; 101; 99; 116; 115; 47; 112; 47; 105; 110; 115; 116; 97; 110; 99; 101; 115; 47; 105]%N [116%N] [([102%N], None)]) 0 [];
                mkCall (BMutateRow C18_tbl [97%N] (bulk_muts [102%N] 11 100 1000 [1%N])) 0 [];
                C18_w 98 1; C18_w 99 1]).
 Definition C18_read : call := mkCall (BReadRows C18_tbl [] [] None 0) 0 [].
